@@ -160,6 +160,7 @@ func Load(repo string, cfg Config, extra ...string) (*Program, error) {
 		}
 	}
 	p.allFuncs = ssautil.AllFunctions(prog)
+	curSess = inferSessionInfo(p)
 	p.Sizes = pkgs[0].TypesSizes
 	platformIntBytes = p.Sizes.Sizeof(types.Typ[types.Int])
 	return p, nil
